@@ -221,6 +221,38 @@ def analyse(prog):
             else:
                 rec('dependencies.exact', 'discharged')
 
+    # ---- modeling.expressions._dependency_graph / depends_on (symbol level): sound for the final value of a symbol ----
+    if not has_ode:
+        import pharmpy.modeling.expressions as ME
+        for s in assigned:
+            i = max(k for k, st in enumerate(stmts) if isinstance(st, Assignment) and st.symbol == s)
+            val = den.trace[i][2][sympy.Symbol(str(s))]
+            bad = None
+            for leaf in sorted(semeq.leaves(val), key=str):
+                if isinstance(leaf, sympy.core.function.AppliedUndef) or str(leaf) == 't':
+                    continue
+                ok, ans = guarded('depends_on', lambda: ME._depends_on_any_of(P, Expr.symbol(str(s)), [Expr.symbol(str(leaf))]))
+                if not ok:
+                    bad = 'error'
+                    break
+                if ans:
+                    continue
+                r, info = semeq.depends_semantically(eq, val, leaf)
+                if r == 'dependent':
+                    bad = (str(leaf), str(val), info)
+                    break
+                if r == 'unknown':
+                    rec('depends_on.sound', 'inconclusive', info=info)
+            if bad == 'error':
+                continue
+            if bad:
+                # a separate region: the missing leaf is an input that the program itself assigns later
+                later = bad[0] in {str(a) for a in assigned}
+                rec('depends_on.sound', 'violated', symbol=str(s), missing=bad[0], value=bad[1], witness=bad[2],
+                    kind='input assigned later in the program' if later else '')
+            else:
+                rec('depends_on.sound', 'discharged')
+
     # ---- answers are values, not views (concrete frame condition, not a solver verdict): editing a returned set
     # must not change later answers of any query on the same statements
     try:
